@@ -122,7 +122,7 @@ PROPS = {
         kani=True,
         kani_select=dict(quick=r'^k_lazy_\w+', thorough=r'^k_lazy_|^k_glue_\w+_(cnt|find)_n3'),
         trusted_base=[T7, A64, STUBS, MODEL],
-        assumptions=['4 of the 8 eager transformation sites are beyond CBMC (flat_map materialisation): ParFlatMapFilter::{map,flat_map,filter_map}, ParFilterMapFilter::flat_map are not decided by a harness'],
+        assumptions=['the 8 eager transformation sites run their materialising collect over a 1-element (3 sites) or empty (5 sites) source'],
         explanation='Verus (unbounded): Default, From<usize>, with_num_threads, with_chunk_size, is_sequential, sequential() against their specs for all inputs. Kani (loop-free => complete): for each of the 8 iterator types, each of map/filter/flat_map/filter_map keeps params() for fully symbolic Params, num_threads(n)/chunk_size(c) report Auto for 0 and Max(n)/Exact(c) otherwise and keep the other field.',
     ),
     'C13': dict(
@@ -136,7 +136,7 @@ PROPS = {
     'C15': dict(
         level='proof', verus_units=['core'],
         kani=True,
-        kani_select=dict(quick=r'^k_pair_|^k_glue_(map_fil|filtermap_fil)_(cnt|find)_n3c1|^k_glue_map_fil_red_n3c1', thorough=r'^k_pair_|^k_glue_'),
+        kani_select=dict(quick=r'^k_pair_|^k_glue_map_fil_(cnt|find)_n3c1|^k_glue_filtermap_fil_find_n3c1|^k_glue_map_fil_red_n3c1', thorough=r'^k_pair_|^k_glue_'),
         trusted_base=[T1, T5, AHW, A64, ASPEC, ARITH, STUBS, MODEL],
         assumptions=['domain restriction (known finding KF-C15-1): chunk sizes c with len + c*(T+1) > usize::MAX wrap the dependency\'s position counter; the contracts do not cover them', TASK_BOUND + ' (only for "result independent of worker count / chunk size")'],
         explanation='Verus (unbounded): every arithmetic operation, assert!, expect, index and division in parameter resolution (calc_num_threads, calc_chunk_size, div_ceil, find_chunk_size, min_chunk_size, lag/fibonacci) and in the Runner is safe for all inputs; chunk >= 1, threads >= 1; the spawn loops terminate. Kani (bounded): kernels agree with the parameter-free sequential oracle for the worker counts / chunk sizes of the shapes.',
@@ -146,7 +146,7 @@ PROPS = {
         kani=True,
         kani_select=dict(quick=r'^k_lazy_', thorough=r'^k_lazy_'),
         trusted_base=[STUBS, MODEL],
-        assumptions=['parametricity in the item type', '4 of the 8 eager sites are not decided by a harness (CBMC capacity): ParFlatMapFilter::{map,flat_map,filter_map}, ParFilterMapFilter::flat_map; they materialise with collect_vec exactly like the 4 decided ones (same source pattern) and are listed in DESIGN.md'],
+        assumptions=['parametricity in the item type', '5 of the 8 eager sites are observed over an EMPTY source (the eager kernels pull once and find nothing): enough to observe that the source was touched at construction time'],
         explanation='Kani (loop-free => complete per transformation function): for each of the 8 iterator types x {map, filter, flat_map, filter_map, num_threads, chunk_size} and for Iterator::par(): after the call no user closure has run, no element was pulled, the source iterator was not advanced. The eager sites fail this with a concrete trace and are recorded as known findings.',
     ),
 }
